@@ -163,11 +163,12 @@ class C16:
         lo, hi = gen.window(case["ops"], 3)
         L += [gen.op_line(0, op) for op in case["ops"]]
         L += ["dump 0", "pres 0 %d %d" % (lo, hi)]
+        # every C02 query on the converted graph too (flattened view: isolated nodes must be full citizens of it)
         if case["cls"]:
-            L += ["toundir 0 1 0", "dump 0"] + wf_lines(1, lo, hi) + ["toundir 0 2 1", "dump 0"] + wf_lines(2, lo, hi)
+            L += ["toundir 0 1 0", "dump 0"] + wf_lines(1, lo, hi) + ["q2 1 -"] + ["toundir 0 2 1", "dump 0"] + wf_lines(2, lo, hi) + ["q2 2 -"]
             L += ["isol 0 u0", "isol 0 u1"]
         else:
-            L += ["todir 0 1", "dump 0"] + wf_lines(1, lo, hi) + ["isol 0 d"]
+            L += ["todir 0 1", "dump 0"] + wf_lines(1, lo, hi) + ["q2 1 -"] + ["isol 0 d"]
         return L
 
     @staticmethod
@@ -188,7 +189,7 @@ class C16:
         j = i + 2
         for nm, dcls in convs:
             res, dG2 = outs[j], outs[j + 1]
-            wf = outs[j + 2:j + 6]; j += 6
+            wf = outs[j + 2:j + 7]; j += 7
             if res != "ok":
                 fails.append(F("C16.raised", conv=nm, got=res)); continue
             if dG2 != dumpG:
